@@ -72,6 +72,15 @@ def build_harness():
         return rc == 0, out[-4000:], time.time() - t0
 
 
+def build_harness_debug():
+    """An unoptimised build of impl_run (target/debug): stack use per nesting level is measured on it (C11), because an
+    optimised build may turn a self-call in tail position into a loop and hide recursion that a debug build has."""
+    with Lock('cargo'):
+        rc, out = sh(['cargo', 'build', '--offline'], cwd=os.path.join(ROOT, 'harness'),
+                     env={'CARGO_NET_OFFLINE': 'true'}, timeout=1800)
+        return rc == 0, out[-4000:]
+
+
 def build_model(targets):
     with Lock('lake'):
         rc, out = sh(['lake', 'build'] + targets, cwd=LEAN, timeout=3600)
